@@ -20,6 +20,7 @@ RULE = (
     "BlocksOffset/DataOffset; several images sharing one image UUID (the same disk at different times) opened in one process; children over a parent image in which zero-marked blocks cover parent data; requests are exhaustive sector pairs on tiny disks and boundary-set pairs + random "
     "byte-granular ones otherwise. A case is non-trivial when it has >=2 blocks and a block map that is not the "
     "identity, or a mix of block states; distinct = distinct (block size, nblocks, states, map) signatures."
+    " Every stream additionally goes through: continuation sequences (read, visit elsewhere or have another user move the shared handles, resume at the earlier end / buffer end), reads under an injected transient backend I/O error followed by a retry on the same object (the failed call may raise; returned bytes must be right), and long reads (whole disk up to 24 MiB, else 6-24 MiB windows)."
 )
 ASSUMPTIONS = [
     "the harness's VDI writer and content model are a faithful reading of the VDI v1.1 layout",
